@@ -7,6 +7,34 @@ import BC.Model.Atmo
 namespace BC.Model
 open BC BC.Gen
 
+/-- `TrajFlag` as a record of bits (ZERO_UP = 1, ZERO_DOWN = 2, MACH = 4, RANGE = 8, APEX = 16) -/
+structure Flags where
+  zeroUp : Bool := false
+  zeroDown : Bool := false
+  mach : Bool := false
+  range : Bool := false
+  apex : Bool := false
+  deriving DecidableEq, Repr, Inhabited
+
+def Flags.toNat (f : Flags) : Nat :=
+  (if f.zeroUp then 1 else 0) + (if f.zeroDown then 2 else 0) + (if f.mach then 4 else 0) +
+  (if f.range then 8 else 0) + (if f.apex then 16 else 0)
+
+def Flags.ofNat (n : Nat) : Flags :=
+  ⟨n % 2 == 1, n / 2 % 2 == 1, n / 4 % 2 == 1, n / 8 % 2 == 1, n / 16 % 2 == 1⟩
+
+/-- `a & b` is non-zero -/
+def Flags.anyCommon (a b : Flags) : Bool :=
+  (a.zeroUp && b.zeroUp) || (a.zeroDown && b.zeroDown) || (a.mach && b.mach) || (a.range && b.range) ||
+  (a.apex && b.apex)
+
+/-- the flag value is 0 (falsy) -/
+def Flags.isNone (a : Flags) : Bool := !(a.zeroUp || a.zeroDown || a.mach || a.range || a.apex)
+
+def fNONE : Flags := {}
+def fRANGE : Flags := { range := true }
+def fALL : Flags := ⟨true, true, true, true, true⟩
+
 structure Vec (α : Type) where
   x : α
   y : α
@@ -79,12 +107,12 @@ structure Row (α : Type) where
   drag : α
   energy : α        -- ft·lb
   ogw : α           -- raw grain
-  flag : Nat
+  flag : Flags
   deriving Inhabited
 
 /-- `create_trajectory_row(time, range_vector, velocity_vector, velocity, mach, spin_drift, look_angle,
     density_factor, drag, weight, flag)`; `none` = ZeroDivisionError (`velocity / mach` with `mach = 0`). -/
-def createRow (time : α) (r v : Vec α) (velocity mach spin look densityFactor drag weight : α) (flag : Nat) :
+def createRow (time : α) (r v : Vec α) (velocity mach spin look densityFactor drag weight : α) (flag : Flags) :
     Option (Row α) :=
   if !nz mach then none else
   let windage := r.z + spin
